@@ -190,6 +190,9 @@ GetChanges ==
          /\ Chk("C10", "bytes-immutable",
                 \A i \in DOMAIN got : got[i].hash \in DOMAIN digests => digests[got[i].hash] = got[i].digest)
          /\ Chk("C10", "hash-is-sha256-of-chunk", \A i \in DOMAIN got : got[i].hashok)
+         /\ Chk("C11", "change-bytes-survive-save-and-load",
+                \A i \in DOMAIN got : got[i].hash \in DOMAIN digests => digests[got[i].hash] = got[i].digest)
+         /\ Chk("C11", "changes-survive-save-and-load", {got[i].hash : i \in DOMAIN got} = want)
   /\ UNCHANGED <<chg, applied, queue, actor, digests>>
 
 ChgDef ==
@@ -198,10 +201,17 @@ ChgDef ==
   /\ digests' = (E.def.hash :> E.def.digest) @@ digests
   /\ UNCHANGED <<applied, queue, actor>>
 
+(* events of other layers (historical reads, storage, sync, ...) are not this layer's business *)
+Handled == {"reset", "newrep", "commit", "deliver", "merge", "fork", "forkat", "forkat_err", "setactor",
+            "saveload", "missing", "getchanges", "chgdef"}
+Skip ==
+  /\ l <= Len(Rec) /\ E.ev \notin Handled /\ l' = l + 1
+  /\ UNCHANGED <<chg, applied, queue, actor, digests>>
+
 Init == l = 1 /\ chg = <<>> /\ applied = <<>> /\ queue = <<>> /\ actor = <<>> /\ digests = <<>>
 
 Next == Reset \/ NewRep \/ Commit \/ Deliver \/ Merge \/ Fork \/ ForkAt \/ ForkAtErr
-        \/ SetActor \/ SaveLoad \/ MissingProbe \/ GetChanges \/ ChgDef
+        \/ SetActor \/ SaveLoad \/ MissingProbe \/ GetChanges \/ ChgDef \/ Skip
 
 Spec == Init /\ [][Next]_vars
 
